@@ -159,6 +159,12 @@ where
     }
 
     fn size_hint(&self) -> (usize, Option<usize>) {
+        // any other method of the wrapped iterator is a use of it as well: when a worker thread calls it
+        // (the constructor calls it before the iterator is shared), it is reported as an access
+        let t = sched::tid();
+        if t != usize::MAX {
+            sched::record(format!("L {} srchint", t));
+        }
         let (lo, hi) = self.inner.size_hint();
         match self.hint {
             0 => (lo, hi),
